@@ -78,6 +78,7 @@ struct SchedStats {
 	uint64_t switches = 0;
 	uint64_t interleave_hash = 0;  // hash of (task,site) at every decision that switched
 	uint64_t yields_total = 0;     // all yield calls, also single-threaded ones
+	uint64_t yields_in_lock = 0;   // yield points passed inside a lock / once region (never a switch)
 };
 
 typedef void (*TaskBody)(int task, void *arg);
@@ -92,6 +93,13 @@ bool sched_in_phase();
 const SchedStats &sched_stats();
 void sched_reset_stats();
 void sched_set_switch_hook(void (*hook)()); // called on the thread that gives the token away, before the hand-off
+// A simulated thread that is inside a lock / once / static-initialisation region of the library (the seams intercept
+// pthread_mutex_*, pthread_rwlock_*, pthread_spin_*, pthread_once, __cxa_guard_*) is never switched away from: a
+// parked thread that held such a lock would block the next one in the real lock for ever. Critical sections are
+// therefore atomic steps of the simulation (which they are for every thread that takes the same lock).
+void sched_lock_enter();
+void sched_lock_exit();
+int sched_lock_depth();
 
 // site ids for simulator-originated yield points (library H1 sites use 1..15)
 enum { SITE_OP_BEGIN = 16, SITE_OP_END = 17, SITE_ALLOC = 18, SITE_FREE = 19, SITE_MMAP = 20, SITE_MPROTECT = 21, SITE_MUNMAP = 22, SITE_TASK_END = 23, SITE_PHASE_START = 24 };
